@@ -79,7 +79,7 @@ def run(ctx):
     two_viewers_leg(ctx)
     r = ctx.rng
     oldlim = limit_memory(6 << 30)
-    n = ctx.n(120, 1500)
+    n = ctx.n(260, 2000)
     lines, meta = [], []
     for si in range(n):
         pwreq = r.random() < .3
